@@ -371,7 +371,10 @@ pub fn switch(
         // `saturating_sub` and `max` handle incorrect explicit signatures
         let discard_end = (discard_start + sig.args() + f.sig.outputs())
             .saturating_sub(f.sig.args() + sig.outputs())
-            .max(discard_start);
+            .max(discard_start)
+            // A branch that is known to throw may have more outputs than the switch,
+            // but only the switch's arguments that the branch does not take can be discarded
+            .min(discard_start + sig.args().saturating_sub(f.sig.args()));
         if discard_end > env.rt.stack.len() {
             return Err(env.error("Stack was empty when discarding excess switch arguments."));
         }
